@@ -692,7 +692,7 @@ func (jf *JSONFamily) installUnAPLoop(c *Contract, f *ssa.Function, jt *jsonType
 		out = append(out, NamedFormula{Name: "invariant#visited-decoded", Props: []string{"C08", "C06"}, Formula: ap.all(func(k string) string {
 			return and(eq(ap.hasAP(st, k), sx("select", vis, k)), implies(sx("select", vis, k), and(ap.left(k), not(ap.fails(k)), eq(ap.valAP(st, k), ap.decoded(k)))))
 		})})
-		lenf := e.D.UF("maplen_Str", []string{"(Array Str Bool)"}, "Int")
+		lenf := e.D.MapLen("Str")
 		apm := e.load(st, ap.apAddr, ap.apT)
 		out = append(out, NamedFormula{Name: "invariant#map-made", Props: []string{"C08"}, Formula: implies(and(not(eq(m, "0")), sx(">", sx(lenf, hasm), "0")), not(eq(apm, "0")))})
 		for _, u := range jf.unMembers(e, jt, cptr, ap.has0, ap.val0) {
